@@ -370,6 +370,19 @@ class Walker:
                         res = res[1][0][2] if xs[3] == "Some" else res[1][1][2]
                         if xs[3] == "Some":
                             res = ("agg", "adt", "core::result::Result", "Ok", [xs[4][0]])
+                if info["key"] == "Option<T>::insert" and len(args) == 2 and args[0][0] == "ref":
+                    # opt.insert(v): *opt = Some(v); yields &mut v
+                    target = args[0][1]
+                    some = ("agg", "adt", "core::option::Option", "Some", [args[1]])
+                    mem = dict(env["$mem"])
+                    k_ = norm(target)
+                    for other in list(mem):
+                        if _prefix(k_, other) or _prefix(other, k_):
+                            del mem[other]
+                    mem[k_] = some
+                    env["$mem"] = mem
+                    events.append(("store", target, some))
+                    res = ("ref", args[1])
                 if info["key"] in ("Result<T, E>::map", "Option<T>::map", "Result<T, E>::map_err") and len(args) == 2:
                     x = mir.strip_refs(args[0]) if args[0][0] == "ref" else args[0]
                     if x[0] == "agg" and x[1] == "adt" and x[2] in ("core::result::Result", "core::option::Option"):
@@ -381,6 +394,21 @@ class Walker:
                             res = x
                     elif x[0] == "errprop" and not info["key"].endswith("map_err"):
                         res = x                  # an error passes through map unchanged
+                    elif x[0] == "call" and not info["key"].endswith("map_err"):
+                        # opaque x: x.map(f) decides like `match x { Ok(v) => Ok(f(v)), Err(e) => Err(e) }` when f is a local
+                        # single-path closure or a function item (so that `.map(..)` and `?` + `Ok(..)` read the same)
+                        is_res = info["key"].startswith("Result")
+                        payload = ("okval", args[0]) if is_res else ("field", ("variant", args[0], "Some"), "0", 0, "?")
+                        v = self._apply_fn(args[1], payload, site)
+                        if not (v[0] == "call" and v[1] == "apply"):
+                            if is_res:
+                                cond = ("discr", args[0], ((0, "Ok"), (1, "Err")))
+                                res = ("fork", [(cond, 0, ("agg", "adt", "core::result::Result", "Ok", [v])),
+                                                (cond, 1, ("errprop", args[0]))])
+                            else:
+                                cond = ("discr", args[0], ((0, "None"), (1, "Some")))
+                                res = ("fork", [(cond, 1, ("agg", "adt", "core::option::Option", "Some", [v])),
+                                                (cond, 0, ("agg", "adt", "core::option::Option", "None", []))])
                 if isinstance(res, tuple) and res and res[0] == "fork":
                     opaque = ("call", info["key"], info["def"], args, site, info["targs"])
                     events.append(("call", site, info["key"], info["base_key"], info["def"], args, info["targs"], opaque))
